@@ -16,7 +16,7 @@ except Exception:  # pragma: no cover
 
 META = {
     "technique": "Lean 4 algebra over the model of rotate_with_quaternion (orthonormality, first row, antipodal chart) and pair geometry + rotation-strata correspondence (exact axes, cone, generic) + SO(3) x translation probes with the singular set over-sampled",
-    "level_text": "Theorems: for every unit bond vector outside the antipodal branch the local->molecular frame is a proper rotation with first row = bond direction; inside the antipodal branch this holds iff v = (-1,0,0) (witness: the defect cone); pair vectors are translation invariant and rotation covariant; net force/torque vanish for pairwise central contributions; the transverse (pp|pp) block depends on the frame only through the bond direction. The model is compared with the real rotate_with_quaternion on generic, exact-axis, in-cone and cone-boundary unit vectors; whole-molecule rotations/translations are probed on the real code for all methods and force modes with bonds placed on +-x, +-y, +-z and inside the 4.5e-4 rad cone. Round 2: the rotated two-centre two-electron block is proved to transform as a rank-(2,2) tensor under every orthogonal R (C02b.w_block_covariant, all 256 index quadruples on the packed 10x10 layout), hence the two-centre Coulomb energy is invariant and the Coulomb / core-attraction matrices covariant; the axial identity of the local integrals is shown to be necessary.",
+    "level_text": "Theorems: for every unit bond vector outside the antipodal branch the local->molecular frame is a proper rotation with first row = bond direction; inside the antipodal branch this holds iff v = (-1,0,0) (witness: the defect cone); pair vectors are translation invariant and rotation covariant; net force/torque vanish for pairwise central contributions; the transverse (pp|pp) block depends on the frame only through the bond direction. The model is compared with the real rotate_with_quaternion on generic, exact-axis, in-cone and cone-boundary unit vectors; whole-molecule rotations/translations are probed on the real code for all methods and force modes with bonds placed on +-x, +-y, +-z and inside the 4.5e-4 rad cone. Round 2: the rotated two-centre two-electron block is proved to transform as a rank-(2,2) tensor under every orthogonal R (C02b.w_block_covariant, all 256 index quadruples on the packed 10x10 layout), hence the two-centre Coulomb energy is invariant and the Coulomb / core-attraction matrices covariant; the axial identity of the local integrals is shown to be necessary. Translator tie (regenerated every run): the forward part of rotate_with_quaternion (column assignments, cat, antipodal mask and masked overwrite, norm, division, unbind, nine entries, dtype thresholds) is translated component by component and proved equal to the model's rotq (RotTie).",
     "level_note": "Trusted: Lean kernel; harness. Known findings: F2 (frame frozen inside the cone around +-x: sp methods) and F3 (d-orbital PM6 exact-axis bonds) are reported as KNOWN-FINDING; any other orientation/method failing is a VIOLATION. d-orbital kernels are unmodelled (probe only).",
     "design_ref": "DESIGN.md section 5 C02",
 }
@@ -254,8 +254,12 @@ def corr_w(ctx: Ctx, drv):
 
 
 def run(ctx: Ctx):
+    from ..translate import gen as _gen
+    _gen.regenerate(ctx, ["RotGen"])
     leanproj.check_theorems(ctx, MODULE, THEOREMS)
-    from .registry import THEOREMS_C02B
+    from .registry import THEOREMS_C02B, THEOREMS_ROTTIE
+    # translator tie: the forward part of rotate_with_quaternion, translated component by component, is the model's rotq
+    leanproj.check_theorems(ctx, "PyseqmVerif.Properties.RotTie", THEOREMS_ROTTIE)
     leanproj.check_theorems(ctx, "PyseqmVerif.Properties.C02b", THEOREMS_C02B)
     drv = leanproj.Driver()
     try:
